@@ -821,8 +821,8 @@ spif_str_trim(spif_str_t self)
     }
     start = self->s;
     end = self->s + self->len - 1;
-    for (; isspace((spif_uchar_t) (*start)) && (start < end); start++);
-    for (; isspace((spif_uchar_t) (*end)) && (start < end); end--);
+    for (; (start <= end) && isspace((spif_uchar_t) (*start)); start++);
+    for (; (start <= end) && isspace((spif_uchar_t) (*end)); end--);
     if (start > end) {
         return spif_str_done(self);
     }
